@@ -9,7 +9,7 @@ cd $WT
 timeout 600 /venv/bin/python $OUT/demo$N.py > /tmp/seed/$P/demo$N.before.log 2>&1; RB=$?
 git -C $WT apply $OUT/patch$N.diff || { echo "patch does not apply"; exit 2; }
 timeout 600 /venv/bin/python $OUT/demo$N.py > /tmp/seed/$P/demo$N.after.log 2>&1; RA=$?
-nice -n 10 timeout 1500 /venv/bin/python -m pytest -q -p no:cacheprovider --timeout=900 -x -q 2>&1 | tail -3 > /tmp/seed/$P/tests$N.log
+nice -n 10 timeout 1500 /venv/bin/python -m pytest -q -p no:cacheprovider --timeout=900 2>&1 | tail -3 > /tmp/seed/$P/tests$N.log
 git -C $WT checkout -q -- . ; git -C $WT clean -fdq
 SUMMARY=$(tail -1 /tmp/seed/$P/tests$N.log)
 mkdir -p $DST
